@@ -1,7 +1,8 @@
 import Iota.Driver.C14
 import Iota.Driver.C10
+import Iota.Driver.C15
 
 namespace Iota.Driver
 def allOps : List (String × Handler) :=
-  C14.ops ++ C10.ops
+  C14.ops ++ C10.ops ++ C15.ops
 end Iota.Driver
